@@ -4,6 +4,7 @@ import (
 	"encoding/json"
 	"io"
 	"sort"
+	"strings"
 	"sync"
 
 	"github.com/wundergraph/graphql-go-tools/v2/pkg/engine/resolve"
@@ -47,7 +48,7 @@ type PostFetch struct {
 
 func (a *PostFetch) AuthorizePreFetch(_ *resolve.Context, ds string, _ json.RawMessage, c resolve.GraphCoordinate) (*resolve.AuthorizationDeny, error) {
 	a.mu.Lock()
-	a.PreFetch = append(a.PreFetch, Asked{ds, c.TypeName, c.FieldName})
+	a.PreFetch = append(a.PreFetch, Asked{strings.Clone(ds), strings.Clone(c.TypeName), strings.Clone(c.FieldName)})
 	a.mu.Unlock()
 	if a.D.Denied(c.TypeName, c.FieldName) {
 		return &resolve.AuthorizationDeny{Reason: "no"}, nil
@@ -57,7 +58,7 @@ func (a *PostFetch) AuthorizePreFetch(_ *resolve.Context, ds string, _ json.RawM
 
 func (a *PostFetch) AuthorizeObjectField(_ *resolve.Context, ds string, _ json.RawMessage, c resolve.GraphCoordinate) (*resolve.AuthorizationDeny, error) {
 	a.mu.Lock()
-	a.Object = append(a.Object, Asked{ds, c.TypeName, c.FieldName})
+	a.Object = append(a.Object, Asked{strings.Clone(ds), strings.Clone(c.TypeName), strings.Clone(c.FieldName)}) // the engine hands out strings over arena memory
 	a.mu.Unlock()
 	if a.D.Denied(c.TypeName, c.FieldName) {
 		return &resolve.AuthorizationDeny{Reason: "no"}, nil
@@ -82,7 +83,7 @@ func (a *Batch) AuthorizeFields(_ *resolve.Context, cs []resolve.GraphCoordinate
 	a.Calls++
 	out := make([]resolve.AuthorizationDecision, len(cs))
 	for i, c := range cs {
-		a.Asked = append(a.Asked, Asked{"", c.TypeName, c.FieldName})
+		a.Asked = append(a.Asked, Asked{"", strings.Clone(c.TypeName), strings.Clone(c.FieldName)})
 		if a.D.Denied(c.TypeName, c.FieldName) {
 			out[i] = resolve.AuthorizationDecision{Allowed: false, Reason: "no"}
 		} else {
